@@ -843,7 +843,10 @@ var jsonSpecials = []string{"\\", "\"", "/", "\b", "\f", "\n", "\r", "\t", "\x00
 	// valid UTF-8 at the edges of the encoding: the replacement character itself (U+FFFD), noncharacters, the first / last
 	// code point of every length, the code points around the surrogate gap, other C0 / C1 controls and DEL
 	"\xef\xbf\xbd", "\xef\xbf\xbe", "\xef\xbf\xbf", "\xf4\x8f\xbf\xbf", "\xc2\x80", "\xdf\xbf", "\xe0\xa0\x80", "\xed\x9f\xbf", "\xee\x80\x80",
-	"\xf0\x90\x80\x80", "\xf3\xa0\x80\x81", "\x01", "\x07", "\x0b", "\x0e", "\x10", "\x1b", "\xc2\x85", "\xc2\x9f"}
+	"\xf0\x90\x80\x80", "\xf3\xa0\x80\x81", "\x01", "\x07", "\x0b", "\x0e", "\x10", "\x1b", "\xc2\x85", "\xc2\x9f",
+	// text that already looks escaped (a stored JSON or HTML document): a literal backslash followed by what an encoder itself
+	// produces for <, >, &, the line separators and quotes
+	"\\u003c", "\\u003e", "\\u0026", "\\u2028", "\\u2029", "\\u0000", "\\\\u003c", "&lt;", "&amp;", "{\"a\":\"\\u003cb\\u003e\"}"}
 
 func oneSpecial(r *rand.Rand) []byte {
 	sp := jsonSpecials[r.Intn(len(jsonSpecials))]
@@ -953,6 +956,19 @@ func modeC20(e *Env) {
 			t.Events = append(t.Events, ev)
 		}
 		txJSONCase(e, t, "synthetic")
+	}
+	// (d) every special sequence once, whatever the seed: in the SQL text, in a name and in a value
+	for _, sp := range jsonSpecials {
+		t := &gobinlog.Transaction{NowPosition: gobinlog.Position{Filename: "f" + sp, Offset: 4}, NextPosition: gobinlog.Position{Filename: "f", Offset: 9}}
+		ev := &gobinlog.StreamEvent{Type: gobinlog.StatementUpdate, Table: gobinlog.NewMysqlTableName("d"+sp, sp+"t")}
+		ev.RowValues = []*gobinlog.RowData{{Columns: []*gobinlog.ColumnData{
+			{Filed: "c" + sp, Type: gobinlog.ColumnType(252), Data: []byte("a" + sp + "b")},
+			{Filed: "e", Type: gobinlog.ColumnType(15), Data: []byte(sp)}}}}
+		q := &gobinlog.StreamEvent{Type: gobinlog.StatementInsert, Table: gobinlog.NewMysqlTableName("d", "t")}
+		q.Query.SQL = "insert into t values ('" + sp + "')"
+		q.Query.Database = "db" + sp
+		t.Events = []*gobinlog.StreamEvent{ev, q}
+		txJSONCase(e, t, "every-special")
 	}
 	// (c) long valid UTF-8 values: multi-byte characters at every alignment (a prefix of 0..3 ASCII bytes, then characters of
 	// 2, 3 or 4 bytes), so that whatever offset an implementation may cut or sniff a value at falls inside a character
